@@ -237,6 +237,20 @@ def run(ctx):
             if len(out[1]) != want or len(out[1]) > 5:
                 prop_bad.append({"function": name, "value": v[1], "what": f"varint has {len(out[1])} bytes, minimal is {want}"})
 
+    # none of this may depend on the process's local time zone
+    from .. import tzprobe
+    tz_ops = []
+    for us in (0, 1000, 1500000, 86399999000, 1700000000123000, 253402300799999000, 4102444800000000, 5000):
+        for tzm in (0, 60, -300, 765):
+            tz_ops.append(["wdt", us, tzm, False]); tz_ops.append(["wdt", us, tzm, True])
+        ms = us // 1000
+        tz_ops.append(["rdt", ms.to_bytes(8, "big", signed=True).hex(), False]); tz_ops.append(["rdt", ms.to_bytes(8, "big", signed=True).hex(), True])
+    tz_ops.append(["rdt", (-1).to_bytes(8, "big", signed=True).hex(), True])
+    for us in (0, 1500, -1500, 2147483647000, 86399999913600000):
+        tz_ops.append(["wtd", us, "write_timedelta_i64"]); tz_ops.append(["wtd", us, "write_timedelta_i32"])
+    tz_diff = tzprobe.differing(tz_ops)
+    for dd in tz_diff[:3]:
+        prop_bad.append({"function": dd["operation"][0], "what": "the result depends on the process's local time zone (TZ)", **dd})
     phases["implementation_cases_s"] = round(_time.time() - _t0, 1)
     # model comparison: single cases
     d = ctx["build"]
@@ -346,7 +360,7 @@ def run(ctx):
                      "cases": disagreements[:8]})
     total = len(wcases) + len(rcases) + n_sweep_evals
     cov = {
-        "phase_seconds_cumulative": phases,
+        "phase_seconds_cumulative": phases, "time_zone_probe": {"operations": len(tz_ops), "zones": tzprobe.ZONES, "differences": len(tz_diff)},
         "evaluations": total,
         "distinct_nontrivial": len({(c[0], c[1]) for c in wcases}) + len({(c[0], c[1]) for c in rcases}) + n_sweep_evals,
         "traces_validated_against_impl": total - len(failing_w) - len(failing_r),
